@@ -89,4 +89,73 @@ def run (cfg : Cfg) : State → List Event → Option State
     | some s' => run cfg s' es
     | none => none
 
+/-! ### the records of a sample (`SamplePostprocessor.__call__`, loop body) -/
+
+inductive Metric
+  | latency | serviceTime | processingTime
+deriving Repr, DecidableEq
+
+/-- what the post-processor reads from a `Sample`; `deps` = (operation, operation-type) of each dependent timing
+    (`Sample.dependent_timings` gives them the client, task and sample type of their request) -/
+structure Info where
+  client : Nat
+  task : String
+  op : String
+  opType : String
+  normal : Bool                 -- sample type: normal (true) / warmup (false)
+  deps : List (String × String)
+deriving Repr, DecidableEq
+
+structure Record where
+  name : Metric
+  client : Nat
+  task : String
+  op : String
+  opType : String
+  normal : Bool
+deriving Repr, DecidableEq
+
+/-- the request records stored for one sample: latency, service_time, processing_time with the sample's own labels,
+    then one service_time per dependent timing with that timing's labels -/
+def recordsOf (i : Info) : List Record :=
+  [⟨.latency, i.client, i.task, i.op, i.opType, i.normal⟩,
+   ⟨.serviceTime, i.client, i.task, i.op, i.opType, i.normal⟩,
+   ⟨.processingTime, i.client, i.task, i.op, i.opType, i.normal⟩]
+  ++ i.deps.map fun d => ⟨.serviceTime, i.client, i.task, d.1, d.2, i.normal⟩
+
+/-- the records behind a list of sample ids -/
+def records (info : Sid → Info) (l : List Sid) : List Record := l.flatMap fun a => recordsOf (info a)
+
+/-! ### flushing: what the end of a step does (every worker ships, the driver receives, post-processes and hands
+over, race control receives) -/
+
+def drained (s : State) : Prop :=
+  s.samplers = [] ∧ s.w2d = [] ∧ s.raw = [] ∧ s.dstore = [] ∧ s.d2r = []
+
+def Event.isRequest : Event → Bool
+  | .request .. => true
+  | _ => false
+
+/-- one `ship` per worker that still has queued samples (in order of first appearance); `fuel` ≥ length of the list -/
+def shipAllF : Nat → List (Nat × Sid) → List Event
+  | 0, _ => []
+  | _ + 1, [] => []
+  | n + 1, (w, _) :: rest => .ship w :: shipAllF n (rest.filter fun p => !(p.1 == w))
+
+def shipAll (l : List (Nat × Sid)) : List Event := shipAllF l.length l
+
+/-- the workers a list of events ships for -/
+def shipped : List Event → List Nat
+  | [] => []
+  | .ship w :: es => w :: shipped es
+  | _ :: es => shipped es
+
+/-- the flush of state `s`: every worker with queued samples ships, the driver receives every shipment in sending order,
+    one post-processing call, one hand-over, race control receives every hand-over -/
+def flush (s : State) : List Event :=
+  shipAll s.samplers
+  ++ (s.w2d.map (·.1) ++ shipped (shipAll s.samplers)).map Event.deliverU
+  ++ [.postprocess, .handover]
+  ++ List.replicate (s.d2r.length + 1) .deliverR
+
 end Samples
